@@ -66,12 +66,12 @@ def gen_cases(ctx):
         if t in S.CHECKED:
             cases.append(("f%d" % j[0], "chk", [t, h]))
             j[0] += 1
-    nval = {"quick": 26, "thorough": 900}[ctx.tier]
+    nval = {"quick": 26, "thorough": 120}[ctx.tier]
     gov = S.Gen(r.fork(), big=False, over=True)
     for t in S.TYPES:
         heavy = t in ("popdata", "vtb", "vbkpoptx")
         # random bytes, with plausible first bytes
-        for _ in range(20 if quick else 2000):
+        for _ in range(20 if quick else 1000):
             n = r.choice([0, 1, 2, 3, 4, 5, 8, 16, 64, 81, 200]) if r.chance(1, 2) else r.below(120)
             b = r.bytes(n)
             if n >= 4 and t in ("atv", "vtb", "popdata") and r.chance(3, 4):
@@ -88,7 +88,7 @@ def gen_cases(ctx):
             base, e = S.py_encode(c, t, v)
             add(t, "valid", base)
             # truncation at every offset for small encodings, sampled otherwise
-            if len(base) <= (48 if quick else 400):
+            if len(base) <= (48 if quick else 120):
                 for k in range(len(base)):
                     add(t, "truncate-all", base[:k])
             else:
